@@ -26,7 +26,7 @@ CLAIM = dict(
          "live in BKVectors (known finding F3); the 1x1 one-line .eig file is covered (repaired defect F16); from_dict(as_dict(o)) = o for every object whose tags satisfy the "
          "prefix side condition, which is re-checked by the Lean kernel on the live tag tables of every SavableNPZ "
          "subclass on every run; the reloaded object satisfies equals(); WannierData.from_npz looks for the file "
-         "to_npz wrote for every key except mmn_ud/mmn_du, which collide with mmn (known finding F15).  Model and "
+         "to_npz wrote for every key except mmn_ud/mmn_du, which collide with mmn (known finding F15); after ANY history of saves, in-place edits (select_bands, select_kpoints, edits of .data) and replaced files on one container, to_npz followed by from_npz returns the container as it is NOW (to_npz is a function of the current contents; a 'skip if same object identity' cache is refuted by a counterexample).  Model and "
          "code are compared token by token; the oracle checks on the real code that every reloaded value is the "
          "printed value of the original, bit for bit, and that every npz round trip compares equal.",
     note="Trusted: Lean kernel + Mathlib; the harness; Python float formatting/parsing (%17.12f modelled exactly at "
@@ -35,7 +35,8 @@ CLAIM = dict(
 TRUSTED = [
     "modelled: EIG/AMN.to_w90_file + from_w90_file, the loop nest of MMN.to_w90_file and the text part of "
     "MMN.from_w90_file, dic_to_keydic, keydic_to_dic (branch `name not in keydic`), SavableNPZ.as_dict/from_dict, "
-    "W90_file.equals on the dictionary, file naming in WannierData.to_npz/from_npz",
+    "W90_file.equals on the dictionary, file naming in WannierData.to_npz/from_npz, histories of saves / in-place edits / "
+    "replaced files on one container (to_npz as a function of the current contents)",
     "not modelled (oracle only): np.savez_compressed/np.load, normalize_type, the constructors' shape checks, "
     "BKVectors.reorder_bk_vectors, the chunked islice loop of MMN.from_w90_file, WIN/CheckPoint/BKVectors attribute handling",
     "hypotheses of the dictionary theorems: int(str(k)) = k and str(k) contains no underscore",
@@ -43,7 +44,7 @@ TRUSTED = [
 RULE = ("random file objects built with the repository's own classes: NK 1-6, NB 1-7, NW 1-5, NNB 1-4, complex "
         "data over 6 decades incl. negative and |x|<1e-12 values, full and sparse (irreducible) k-point sets, "
         "optional tags present/absent, permuted bk_reorder; every SavableNPZ subclass; WannierData with random "
-        "subsets of files; non-trivial = more than one k-point or band; distinct = distinct (class, sizes, options, seed)")
+        "subsets of files; histories of 3-7 steps (to_npz to two seednames, select_bands, select_kpoints, in-place edits, set_file(overwrite=True), files of another container already on disk) on containers, single file objects and the text writers; non-trivial = more than one k-point or band; distinct = distinct (class, sizes, options, seed)")
 
 
 def rho12(x):
@@ -304,6 +305,57 @@ def corr(ctx):
                 return None
             add(f"wdnames {key} {obj.extension}", chk, "WannierData.to_npz/from_npz file names", dict(key=key))
 
+    # ---------------- histories on one container: which version of which file lies under which seedname
+    for it in range(ctx.n(3, 12)):
+        with ctx.attempt("WannierData history", dict(it=it)):
+            d = os.path.join(work, f"hist{it}")
+            os.makedirs(d, exist_ok=True)
+            NK, NB = 2, 3
+            ver = [0]
+
+            def mk(key):
+                ver[0] += 1
+                v = float(ver[0])
+                if key == "eig":
+                    return C["EIG"](data=[np.full(NB, v) for _ in range(NK)])
+                return C["AMN"](data=[np.full((NB, 2), v, dtype=complex) for _ in range(NK)])
+            ops = []
+            with quiet(), warnings.catch_warnings():
+                warnings.simplefilter("ignore")
+                w = WD()
+                for key in ("eig", "amn"):
+                    w.set_file(key, mk(key))
+                    ops.append(f"f:{key}:{ver[0]}")
+                for _ in range(rng.randint(3, 8)):
+                    r = rng.random()
+                    if r < 0.45:
+                        sd = rng.choice(["a", "b"])
+                        w.to_npz(os.path.join(d, sd))
+                        ops.append(f"s:{sd}")
+                    elif r < 0.8:
+                        key = rng.choice(["eig", "amn"])
+                        ver[0] += 1
+                        obj = w.get_file(key)
+                        for ik in obj.data:                     # in place: same object, new content
+                            obj.data[ik] = np.full(obj.data[ik].shape, float(ver[0]), dtype=obj.data[ik].dtype)
+                        ops.append(f"e:{key}:{ver[0]}")
+                    else:
+                        key = rng.choice(["eig", "amn"])
+                        w.set_file(key, mk(key), overwrite=True)
+                        ops.append(f"f:{key}:{ver[0]}")
+                got = {}
+                for fn in sorted(os.listdir(d)):
+                    sd, ext, _ = fn.split(".")
+                    obj = (C["EIG"] if ext == "eig" else C["AMN"]).from_npz(os.path.join(d, fn))
+                    got[f"{sd}.{ext}"] = int(round(float(np.real(obj.data[0].reshape(-1)[0]))))
+
+            def chk(out, got=got):
+                m = {} if out == "_" else dict((x.split("=")[0], int(x.split("=")[1])) for x in out.split(","))
+                return None if m == got else f"model disk {m} code disk {got}"
+            add(f"hist {';'.join(ops)}", chk, "files on disk after a history of saves / in-place edits / replaced files",
+                dict(ops=ops))
+            ctx.count("corr.history")
+
     out = ctx.lean(lines)
     for l, o, (check, what, case) in zip(lines, out, checks):
         ctx.case(signature=l[:2000], nontrivial=True)
@@ -420,6 +472,7 @@ def gen_objects(C, rng, nprng, irreducible_ok=True):
 
 
 def oracle(ctx, scale):
+    history_oracle(ctx, scale)
     C = imports()
     rng, nprng = ctx.rng, ctx.nprng()
     work = os.path.join(ctx.work, "oracle")
@@ -427,7 +480,7 @@ def oracle(ctx, scale):
     EIG, AMN, MMN, WD = C["EIG"], C["AMN"], C["MMN"], C["WannierData"]
 
     # ---------------- text round trips
-    for it in range(ctx.n(12, 40) * scale):
+    for it in range(ctx.n(10, 40) * scale):
         NK, NB, NW = rng.randint(1, 6), rng.randint(1, 7), rng.randint(1, 5)
         if it % 7 == 3:
             NK, NB = 1, 1            # the one-line .eig file
@@ -594,6 +647,174 @@ def oracle(ctx, scale):
                 ctx.fail("WannierData.from_npz(to_npz): " + "; ".join(bad), wcase,
                          kf=("F15-wandata-mmn-ud-npz" if extra else None))
             shutil.rmtree(os.path.dirname(seedw), ignore_errors=True)
+
+
+def containers_equal(w, w2, tol=1e-12):
+    """the loaded container equals the container AS IT IS NOW: same keys, every file equal"""
+    bad = []
+    if sorted(w2._files) != sorted(w._files):
+        bad.append(f"files {sorted(w._files)} -> {sorted(w2._files)}")
+    for k in w._files:
+        if k in w2._files:
+            a, b = w.get_file(k), w2.get_file(k)
+            msg = deep_equal(a.as_dict(), b.as_dict())
+            if msg:
+                bad.append(f"file {k}: {msg} (NB now {getattr(a, 'NB', '-')}, loaded {getattr(b, 'NB', '-')})")
+            elif hasattr(a, "data") and hasattr(a, "equals") and not a.equals(b, tol)[0]:
+                bad.append(f"file {k}: equals() is False")
+    return bad
+
+
+def history_oracle(ctx, scale):
+    """sequences of to_npz / from_npz / select_bands / select_kpoints / in-place edits / set_file(overwrite) on ONE
+    container and on single file objects, with the same and with other seednames and files already on disk: after
+    every save the loaded container / object must equal the current one; same for the text writers"""
+    C = imports()
+    rng, nprng = ctx.rng, ctx.nprng()
+    WD, EIG, AMN, MMN = C["WannierData"], C["EIG"], C["AMN"], C["MMN"]
+    work = os.path.join(ctx.work, "hist")
+    os.makedirs(work, exist_ok=True)
+    for it in range(ctx.n(5, 20) * scale):
+        d = os.path.join(work, f"h{it}")
+        seeds = [os.path.join(d, "A", "w"), os.path.join(d, "B", "w")]
+        log = []
+        with ctx.attempt("WannierData history", dict(history=log)):
+            objs, dims = gen_objects(C, rng, nprng, irreducible_ok=False)
+            keys = ["eig", "bkvec"] + rng.sample(["amn", "mmn", "uhu", "spn", "unk", "chk", "siu"], rng.randint(1, 5))
+            with quiet(), warnings.catch_warnings():
+                warnings.simplefilter("ignore")
+                w = WD()
+                for k in keys:
+                    w.set_file(k, objs[k])
+                if rng.random() < 0.5:                       # files of an EARLIER, different container already on disk
+                    other, _ = gen_objects(C, rng, nprng, irreducible_ok=False)
+                    w0 = WD()
+                    for k in keys:
+                        if k in other and k not in ("bkvec",):
+                            try:
+                                w0.set_file(k, other[k])
+                            except AssertionError:
+                                pass
+                    w0.to_npz(seeds[0])
+                    log.append("files of another container already under seed A")
+                nsave = 0
+                # every history starts with  save(A), an in-place modification, save(A)  and continues at random
+                forced = [0.0, rng.choice([0.5, 0.65, 0.8]), 0.0]
+                for step in range(3 + rng.randint(1, 4)):
+                    r = forced[step] if step < 3 else rng.random()
+                    if step == 1 and r == 0.5 and not (w.eig.NB > 1 and not (w.has_file('chk') and w.chk.wannierised)):
+                        r = 0.8
+                    if step == 1 and r == 0.65 and len(w.eig.data) <= 1:
+                        r = 0.8
+                    if r < 0.4:
+                        sd = seeds[0] if (step < 3 or rng.random() < 0.6) else seeds[1]
+                        w.to_npz(sd)
+                        w2 = WD.from_npz(sd, files=list(w._files))
+                        log.append(f"to_npz({'A' if sd == seeds[0] else 'B'}) + from_npz")
+                        nsave += 1
+                        bad = containers_equal(w, w2)
+                        if bad:
+                            ctx.fail("WannierData.from_npz after a repeated to_npz does not return the container as it "
+                                     "is now: " + "; ".join(bad), dict(history=list(log), dims=dims))
+                            break
+                    elif r < 0.6 and w.eig.NB > 1 and not (w.has_file('chk') and w.chk.wannierised):   # documented precondition
+                        NBc = w.eig.NB
+                        sel = sorted(rng.sample(range(NBc), rng.randint(1, NBc - 1)))
+                        w.select_bands(selected_bands=sel, allow_again=True)
+                        log.append(f"select_bands({sel})")
+                    elif r < 0.72:
+                        nk = w.eig.NK
+                        have = sorted(w.eig.data)
+                        if len(have) > 1:
+                            keep = sorted(rng.sample(have, rng.randint(1, len(have) - 1)))
+                            for k in w._files:
+                                f = w.get_file(k)
+                                if hasattr(f, "data") and k not in ("bkvec",):
+                                    f.select_kpoints(keep)
+                            log.append(f"select_kpoints({keep}) on the data files")
+                    elif r < 0.88:
+                        k = rng.choice([k for k in w._files if hasattr(w.get_file(k), "data") and k != "bkvec"])
+                        f = w.get_file(k)
+                        ik = rng.choice(sorted(f.data))
+                        if rng.random() < 0.5:
+                            f.data[ik] *= 1.5                  # in-place edit of the array
+                        else:
+                            f.data[ik] = f.data[ik] + 0.25     # the dictionary entry is replaced
+                        log.append(f"in-place edit of {k}.data[{ik}]")
+                    else:
+                        if w.eig.NB == dims["NB"] and len(w.eig.data) == dims["NK"]:
+                            E = EIG(data=[rvals(nprng, (dims["NB"],), False) for _ in range(dims["NK"])])
+                            w.set_file("eig", E, overwrite=True, allow_selected_bands=True)
+                            log.append("set_file('eig', new object, overwrite=True)")
+            ctx.case(signature=("hist", tuple(log), it), nontrivial=nsave >= 2)
+            ctx.count(f"oracle.history.saves={min(nsave, 3)}{'+' if nsave >= 3 else ''}")
+
+        # ---- a single file object: save, modify in place, save to the same path, load
+        with ctx.attempt("file object history", dict(it=it)):
+            NK, NB, NW = rng.randint(2, 4), rng.randint(2, 6), rng.randint(1, 3)
+            kind = rng.choice(["eig", "amn", "mmn"])
+            if kind == "eig":
+                obj = EIG(data=[rvals(nprng, (NB,), False) for _ in range(NK)])
+            elif kind == "amn":
+                obj = AMN(data=[rvals(nprng, (NB, NW)) for _ in range(NK)])
+            else:
+                obj = MMN(data=[rvals(nprng, (2, NB, NB)) for _ in range(NK)])
+            path = os.path.join(d, f"single.{kind}.npz")
+            os.makedirs(d, exist_ok=True)
+            hist = []
+            for step in range(rng.randint(2, 4)):
+                with quiet():
+                    obj.to_npz(path)
+                    back = type(obj).from_npz(path)
+                hist.append("to_npz + from_npz")
+                msg = deep_equal(obj.as_dict(), back.as_dict())
+                if msg or not obj.equals(back, 1e-12)[0]:
+                    ctx.fail(f"{type(obj).__name__}: after {hist} the reloaded object differs from the current one ({msg})",
+                             dict(kind=kind, history=hist))
+                    break
+                if obj.NB > 1 and rng.random() < 0.6:
+                    sel = sorted(rng.sample(range(obj.NB), rng.randint(1, obj.NB - 1)))
+                    obj.select_bands(sel)
+                    hist.append(f"select_bands({sel})")
+                else:
+                    ik = rng.choice(sorted(obj.data))
+                    obj.data[ik] = obj.data[ik] * 2 + 1
+                    hist.append(f"edit data[{ik}]")
+            ctx.case(signature=("filehist", kind, tuple(hist), it), nontrivial=True)
+            ctx.count("oracle.history.file_object")
+
+        # ---- text writers: write, modify, write to the same seedname, read
+        with ctx.attempt("text writer history", dict(it=it)):
+            NK, NB, NW = rng.randint(1, 4), rng.randint(2, 6), rng.randint(1, 3)
+            eig = EIG(data=[rvals(nprng, (NB,), False) for _ in range(NK)])
+            amn = AMN(data=[rvals(nprng, (NB, NW)) for _ in range(NK)])
+            seedt = os.path.join(d, "txt")
+            hist = []
+            for step in range(rng.randint(2, 3)):
+                with quiet():
+                    eig.to_w90_file(seedt)
+                    amn.to_w90_file(seedt)
+                    e2, a2 = EIG.from_w90_file(seedt), AMN.from_w90_file(seedt, npar=1)
+                hist.append("write + read")
+                ok = (e2.NK, e2.NB) == (eig.NK, eig.NB) and (a2.NK, a2.NB, a2.NW) == (amn.NK, amn.NB, amn.NW) and \
+                    all(np.array_equal(e2.data[k], rho12_arr(eig.data[k])) for k in range(NK)) and \
+                    all(np.array_equal(a2.data[k], rho12_arr(amn.data[k])) for k in range(NK))
+                if not ok:
+                    ctx.fail(f"text writers: after {hist} the files read back are not the current objects "
+                             f"(eig NB {eig.NB} -> {e2.NB}, amn NB {amn.NB} -> {a2.NB})", dict(history=hist))
+                    break
+                if eig.NB > 1 and rng.random() < 0.6:
+                    sel = sorted(rng.sample(range(eig.NB), rng.randint(1, eig.NB - 1)))
+                    eig.select_bands(sel)
+                    amn.select_bands(sel)
+                    hist.append(f"select_bands({sel})")
+                else:
+                    eig.data[0] = eig.data[0] + 1.0
+                    amn.data[NK - 1] = amn.data[NK - 1] * 0.5
+                    hist.append("edit data")
+            ctx.case(signature=("texthist", tuple(hist), it), nontrivial=True)
+            ctx.count("oracle.history.text")
+        shutil.rmtree(d, ignore_errors=True)
 
 
 def replay(ctx, case):
